@@ -12,7 +12,7 @@ PID = 'C13'
 
 def body(chk):
     quick = chk.tier == 'quick'
-    nr, ns = (2, 1) if quick else (3, 2)
+    nr, ns = (2, 1) if quick else (4, 3)
     need = {'C01': ('resp', 'op-single', 'op-search', 'none'), 'C04': ('resp-eof', 'resp-err', 'op-closed', 'op-unbind', 'op-single', 'misc-closed'), 'C12': ('scrub', 'resp'),
             'C13': ('scrub', 'resp', 'op-single', 'op-search', 'op-abandon', 'op-unbind')}[PID]
     run_lane(chk, driver.DriverStep, (PID, nr, ns), bounds={'pre-state': f'{nr} pending single-result operations + {ns} running search(es) with symbolic, pairwise distinct IDs; in-use set an arbitrary array containing them',
